@@ -1,0 +1,19 @@
+//go:build verif
+
+package packet
+
+// Verification hooks (build tag verif). Add-only; never compiled into normal builds.
+
+// VerifRLock takes the session read lock so that a verification harness can take a
+// consistent snapshot of the exported tables.
+func (h *Session) VerifRLock() { h.mutex.RLock() }
+
+// VerifRUnlock releases the lock taken by VerifRLock.
+func (h *Session) VerifRUnlock() { h.mutex.RUnlock() }
+
+// VerifICMPWaiters returns the number of pending ping waiters.
+func VerifICMPWaiters() int {
+	icmpTable.Lock()
+	defer icmpTable.Unlock()
+	return len(icmpTable.table)
+}
